@@ -79,12 +79,12 @@ impl Property for C04 {
             1 => (4, 5),
             _ => (6, if tier == Tier::Quick { if suite.slow() { 6 } else { 9 } } else if suite.slow() { 8 } else { 14 }),
         };
-        let src = prop_oneof![3 => Just(KeySource::Dealer), 1 => Just(KeySource::Dkg), 1 => Just(KeySource::DealerRefreshed), 1 => Just(KeySource::Repaired)];
+        let src = prop_oneof![3 => Just(KeySource::Dealer), 1 => Just(KeySource::Dkg), 1 => Just(KeySource::DealerRefreshed), 1 => Just(KeySource::Repaired), 1 => Just(KeySource::History(0))];
         (nlo..=nhi, any::<u16>(), idspec_strategy(None), src, any::<u64>(), msg_short_strategy(), any::<u64>())
             .prop_map(move |(n, ti, ids, source, sseed, msg, seed)| {
                 // |S| = n here (size class is about the signer set): t <= n, signers = all n or a t..n subset
                 let t = 2 + idx(ti, (n - 1) as usize) as u16;
-                let n_total = if source == KeySource::Dkg { n } else { n + (sseed % 3) as u16 };
+                let n_total = if source.uses_dkg() { n } else { n + (sseed % 3) as u16 };
                 Case {
                     shape: Shape { n: n_total, t },
                     ids,
